@@ -4,6 +4,7 @@ import (
 	"errors"
 	"fmt"
 	"reflect"
+	"regexp"
 	"strconv"
 	"strings"
 
@@ -560,6 +561,9 @@ func goMarshal(v interface{}) (string, string) {
 	return r, s
 }
 
+var codecMemberRe = regexp.MustCompile(`[a-z]+=[0-9A-Za-z./]*`)
+var codecNumRe = regexp.MustCompile(`[0-9]+`)
+
 // mutations of a canonical string under the class-representative alphabet
 var editAlphabet = []byte("$,=_09aZ./+@\x00\xff")
 
@@ -659,6 +663,23 @@ func (c *Ctx) codecOneType(id string, t reflect.Type, nvals int, exhaustiveEdits
 			strings.Replace(s, ",", "$", 1), strings.Replace(s, "$", ",", 1), strings.TrimPrefix(s, "$t$"), s+"$junk,", s+"$,")
 		if i := strings.Index(s, "="); i > 0 {
 			muts = append(muts, s[:i]+"x"+s[i:], s[:i-1]+s[i:], s[:i+1]+"0"+s[i+1:], s[:i+1]+"00"+s[i+1:])
+		}
+		// a parameter duplicated inside its group / as a fragment, with the same and with another value
+		for _, loc := range codecMemberRe.FindAllStringIndex(s, -1) {
+			m := s[loc[0]:loc[1]]
+			eq := strings.Index(m, "=")
+			for _, sep := range []string{",", "$"} {
+				muts = append(muts, s[:loc[1]]+sep+m+s[loc[1]:], s[:loc[0]]+m[:eq+1]+"7"+sep+s[loc[0]:], s[:loc[1]]+sep+m[:eq+1]+"7"+s[loc[1]:])
+			}
+		}
+		// integers that wrap around the field width or exceed 64 bits
+		for _, loc := range codecNumRe.FindAllStringIndex(s, -1) {
+			num := s[loc[0]:loc[1]]
+			var v uint64
+			fmt.Sscan(num, &v)
+			for _, alt := range []string{fmt.Sprint(v + 256), fmt.Sprint(v + 65536), fmt.Sprint(v + 1<<32), "18446744073709551616", "340282366920938463463374607431768211456", "-" + num, "+" + num} {
+				muts = append(muts, s[:loc[0]]+alt+s[loc[1]:])
+			}
 		}
 		seen := map[string]bool{s: true}
 		for _, m := range muts {
